@@ -99,3 +99,12 @@ Theorem C12_source_generic_encode : forall H jprint msign role_of v issuer now s
   kind_result H jprint msign role_of v issuer now subject KGeneric true (src_generic_encode H jprint msign role_of v issuer now subject).
 Proof. exact src_generic_encode_model. Qed.
 Print Assumptions C12_source_generic_encode.
+
+(* the unknown functions doEncode consults, by name: the package's own encodeToString and serialize (translated and
+   pinned in C05_source_codec), the nkeys role predicates, the clock, and the identity test of the claims object *)
+Theorem C12_source_do_encode_consults :
+  V2.ClaimsData_doEncode_consults = ["go_encodeToString"; "go_nkeys_IsValidPublicAccountKey"; "go_nkeys_IsValidPublicClusterKey";
+    "go_nkeys_IsValidPublicOperatorKey"; "go_nkeys_IsValidPublicServerKey"; "go_nkeys_IsValidPublicUserKey"; "go_now";
+    "go_same__c__claim_Claims"; "go_serialize__claim"; "go_serialize__header"]%list.
+Proof. reflexivity. Qed.
+Print Assumptions C12_source_do_encode_consults.
